@@ -202,10 +202,35 @@ def case_json(case):
             "tag": case.get("tag")}
 
 
+def corpus_cases():
+    """Minimised inputs of defects found earlier (DESIGN section 7); they run first on every invocation."""
+    H = F(1, 2)
+    raw = [
+        ("sprt", 6, H, F(1), True, {"eta": F(3, 4)}, [F(0)] * 6),                       # negative / -0 history
+        ("sprt", None, H, F(1), True, {"eta": F(3, 4)}, [F(0)] * 3),                    # p = 2.0
+        ("sprt", None, H, F(1), True, {"eta": F(3, 4)}, [F(1), F(1), F(1), F(0), F(1)]),  # product taken twice
+        ("sprt", 4, H, F(1), True, {"eta": F(3, 4)}, [F(0)] * 4),                       # NaN
+        ("kk", 4, H, F(1), True, {"g": F(0)}, [F(1), F(1), F(0), F(0)]),               # 0/0 at m = 0
+        ("kk", 4, H, F(1), True, {"g": F(0)}, [F(0), F(1), F(1), F(1)]),
+        ("alpha_fixed", 10, H, F(1), True, {"eta": F(61, 64)}, [F(0), F(0), F(1), F(1), F(1)]),   # alternative leaves [0,u]
+        ("alpha_optcomp", 3, H, F(17, 16), True, {"rate_error_2": F(1, 64)}, [F(7, 16), F(0), F(0)]),  # eta below mu
+        ("alpha_optcomp", 10, H, F(5, 4), True, {"rate_error_2": F(1, 4)}, [H, F(0), H, F(0), F(0)]),
+        ("alpha_shrink", 5, H, F(1), True, {"eta": F(3, 4), "c": H, "d": F(100), "f": F(0), "minsd": F(1, 2 ** 20)}, [H]),  # length 1
+        ("bet_agrapa", 8, H, F(1), True, {"lam": H, "c_grapa_0": F(7, 8), "c_grapa_max": F(7, 8), "c_grapa_grow": F(0)}, [H, H, F(1), F(1)]),  # 0/0 bet
+        ("bet_agrapa", None, H, F(1), True, {"lam": F(3), "c_grapa_0": H, "c_grapa_max": F(3, 4), "c_grapa_grow": F(0)}, [F(0), F(1)]),  # initial bet above the cap
+        ("alpha_fixed", 5, F(1, 5), F(1), True, {"eta": H}, [F(1), F(0), F(1), F(0)]),   # m = 0, zero draw, positive draw
+    ]
+    out = []
+    for kind, N, t, u, ro, p, xs in raw:
+        out.append(({"kind": kind, "N": N, "t": t, "u": u, "ro": ro, "p": p}, xs))
+    return out
+
+
 def corr_cases(rng, n, kinds=None, reuse_frac=0.15, maxlen=12):
     """Generate n cases and run the implementation on them.  A fraction re-uses one instance that was
     built and run with another configuration first, then re-parametrised in place."""
-    cases = []
+    cases = [{"cfg": cfg, "xs": xs, "impl": run_impl(cfg, xs), "tag": "corpus"}
+             for cfg, xs in corpus_cases() if not kinds or cfg["kind"] in kinds]
     for _ in range(n):
         cfg = gen_cfg(rng, kind=rng.choice(kinds) if kinds else None)
         xs = gen_xs(rng, cfg, maxlen=maxlen)
